@@ -223,10 +223,12 @@ class Hist:
         after = self.probe()
         if after is not before:
             def d(o):
-                return "no runtime" if o is MISSING else ("None" if o is None else "a runtime")
-            self.oracle.append("restore: after leaving `with v%d` (%s) thread %s has %s, not the %s it had before"
-                               % (x, how, threading.current_thread().name, d(after),
-                                  "same " + d(before) if before is not MISSING else d(before)))
+                return "no runtime" if o is MISSING else ("the value None" if o is None else "a runtime")
+            a, b = d(after), d(before)
+            if a == b:
+                a = "a different runtime"
+            self.oracle.append("restore: after leaving `with v%d` (%s) thread %s has %s as its current runtime; "
+                               "before the block it had %s" % (x, how, threading.current_thread().name, a, b))
 
     def run(self, segs):
         RT._RUNTIMES.pop(threading.main_thread(), None)
@@ -869,7 +871,7 @@ def explore(ctx: Ctx) -> Exploration:
     err_hist: Dict[str, int] = {}
     # anchors: cache.disabled() / logging.disabled()
     a = run_impl(["ANCHORS"])[0]
-    for o in a["oracle"]:
+    for o in sorted(set(a["oracle"])):
         findings.append(Finding("failing-input", o, {"anchors": True}))
     for i in range(0, len(hists), CH):
         chunk = hists[i:i + CH]
